@@ -108,6 +108,21 @@ pub fn number_to_string(n: f64) -> String {
     }
 }
 
+/// ECMAScript ToUint32: truncate, then wrap modulo 2^32 (NaN and infinities map to 0).
+pub fn to_uint32(n: f64) -> u32 {
+    if !n.is_finite() {
+        return 0;
+    }
+    let m = math::trunc(n) % 4294967296.0;
+    let m = if m < 0.0 { m + 4294967296.0 } else { m };
+    m as u32
+}
+
+/// ECMAScript ToInt32: ToUint32 reinterpreted as a signed 32-bit integer.
+pub fn to_int32(n: f64) -> i32 {
+    to_uint32(n) as i32
+}
+
 /// Convert a JavaScript string to a number according to ECMAScript ToNumber.
 ///
 /// The string is first trimmed of leading and trailing whitespace.
